@@ -81,7 +81,10 @@ bsdi_gen = Contract(
     requires=[inv("cls"), "cls.default_rounds is not None", "cls.default_rounds >= 1"],
     ensures=[
         ("fresh bsdi cost is odd", "result % 2 == 1"),
-        ("a freshly generated bsdi cost never needs an update [bsdi_crypt:odd-rounds-above-max]", f"not {needs_update_rounds('cls', 'result')}"),
+        ("a freshly generated bsdi cost never needs an update (outside the recorded witness class: even maximum reached)",
+         f"implies(not ({eff('cls.max_desired_rounds')} and cls.max_desired_rounds % 2 == 0 and result == cls.max_desired_rounds + 1), not {needs_update_rounds('cls', 'result')})"),
+        ("a freshly generated bsdi cost never needs an update, even maximum reached [bsdi_crypt:odd-rounds-above-max]",
+         f"implies({eff('cls.max_desired_rounds')} and cls.max_desired_rounds % 2 == 0 and result == cls.max_desired_rounds + 1, not {needs_update_rounds('cls', 'result')})"),
     ],
     descr="all policies satisfying Inv",
 )
